@@ -91,6 +91,8 @@ type Record struct {
 	RSS   []int    `json:"rsS,omitempty"` // MC_ReverseSuffix: bytes of the suffix literal
 	MSZ   *bool    `json:"msz,omitempty"` // MC_ReverseSuffix: the pattern is exactly `.*L`
 	SSL   [][]int  `json:"ssL,omitempty"` // MC_ReverseSuffixSet: bytes of the suffix literals, in order
+	MLP   []int    `json:"mlP"`           // MC_ReverseSuffixML: bytes of the prefix literal (may be empty)
+	MLS   []int    `json:"mlS,omitempty"` // MC_ReverseSuffixML: bytes of the suffix literal
 	RIP   *AST     `json:"riP,omitempty"` // MC_ReverseInner: the part before the inner literal
 	RIQ   *AST     `json:"riQ,omitempty"` // MC_ReverseInner: the inner literal and what follows it
 	RII   []int    `json:"riI,omitempty"` // MC_ReverseInner: bytes of the inner literal
